@@ -123,6 +123,24 @@ fn checked_long(n: i64) -> Result<Variant, VariantError> {
     }
 }
 
+/// Checks that the result of an arithmetic operation on singles is a finite number.
+fn checked_single(f: f32) -> Result<Variant, VariantError> {
+    if f.is_finite() {
+        Ok(Variant::VSingle(f))
+    } else {
+        Err(VariantError::Overflow)
+    }
+}
+
+/// Checks that the result of an arithmetic operation on doubles is a finite number.
+fn checked_double(d: f64) -> Result<Variant, VariantError> {
+    if d.is_finite() {
+        Ok(Variant::VDouble(d))
+    } else {
+        Err(VariantError::Overflow)
+    }
+}
+
 // TODO implement standard operators with panics, let the linter guarantee the type compatibility
 
 impl Variant {
@@ -220,16 +238,16 @@ impl Variant {
     pub fn plus(self, other: Self) -> Result<Self, VariantError> {
         match self {
             Self::VSingle(f_left) => match other {
-                Self::VSingle(f_right) => Ok(Self::VSingle(f_left + f_right)),
-                Self::VDouble(d_right) => Ok(Self::VDouble(f_left as f64 + d_right)),
-                Self::VInteger(i_right) => Ok(Self::VSingle(f_left + i_right as f32)),
-                Self::VLong(l_right) => Ok(Self::VSingle(f_left + l_right as f32)),
+                Self::VSingle(f_right) => checked_single(f_left + f_right),
+                Self::VDouble(d_right) => checked_double(f_left as f64 + d_right),
+                Self::VInteger(i_right) => checked_single(f_left + i_right as f32),
+                Self::VLong(l_right) => checked_single(f_left + l_right as f32),
                 _ => other.plus(self),
             },
             Self::VDouble(d_left) => match other {
-                Self::VDouble(d_right) => Ok(Self::VDouble(d_left + d_right)),
-                Self::VInteger(i_right) => Ok(Self::VDouble(d_left + i_right as f64)),
-                Self::VLong(l_right) => Ok(Self::VDouble(d_left + l_right as f64)),
+                Self::VDouble(d_right) => checked_double(d_left + d_right),
+                Self::VInteger(i_right) => checked_double(d_left + i_right as f64),
+                Self::VLong(l_right) => checked_double(d_left + l_right as f64),
                 _ => other.plus(self),
             },
             Self::VString(s_left) => match other {
@@ -252,16 +270,16 @@ impl Variant {
     pub fn minus(self, other: Self) -> Result<Self, VariantError> {
         match self {
             Self::VSingle(f_left) => match other {
-                Self::VSingle(f_right) => Ok(Self::VSingle(f_left - f_right)),
-                Self::VDouble(d_right) => Ok(Self::VDouble(f_left as f64 - d_right)),
-                Self::VInteger(i_right) => Ok(Self::VSingle(f_left - i_right as f32)),
-                Self::VLong(l_right) => Ok(Self::VSingle(f_left - l_right as f32)),
+                Self::VSingle(f_right) => checked_single(f_left - f_right),
+                Self::VDouble(d_right) => checked_double(f_left as f64 - d_right),
+                Self::VInteger(i_right) => checked_single(f_left - i_right as f32),
+                Self::VLong(l_right) => checked_single(f_left - l_right as f32),
                 _ => other.minus(self).and_then(|x| x.negate()),
             },
             Self::VDouble(d_left) => match other {
-                Self::VDouble(d_right) => Ok(Self::VDouble(d_left - d_right)),
-                Self::VInteger(i_right) => Ok(Self::VDouble(d_left - i_right as f64)),
-                Self::VLong(l_right) => Ok(Self::VDouble(d_left - l_right as f64)),
+                Self::VDouble(d_right) => checked_double(d_left - d_right),
+                Self::VInteger(i_right) => checked_double(d_left - i_right as f64),
+                Self::VLong(l_right) => checked_double(d_left - l_right as f64),
                 _ => other.minus(self).and_then(|x| x.negate()),
             },
             Self::VInteger(i_left) => match other {
@@ -280,16 +298,16 @@ impl Variant {
     pub fn multiply(self, other: Self) -> Result<Self, VariantError> {
         match self {
             Self::VSingle(f_left) => match other {
-                Self::VSingle(f_right) => Ok(Self::VSingle(f_left * f_right)),
-                Self::VDouble(d_right) => Ok(Self::VDouble(f_left as f64 * d_right)),
-                Self::VInteger(i_right) => Ok(Self::VSingle(f_left * i_right as f32)),
-                Self::VLong(l_right) => Ok(Self::VSingle(f_left * l_right as f32)),
+                Self::VSingle(f_right) => checked_single(f_left * f_right),
+                Self::VDouble(d_right) => checked_double(f_left as f64 * d_right),
+                Self::VInteger(i_right) => checked_single(f_left * i_right as f32),
+                Self::VLong(l_right) => checked_single(f_left * l_right as f32),
                 _ => Err(VariantError::TypeMismatch),
             },
             Self::VDouble(d_left) => match other {
-                Self::VDouble(d_right) => Ok(Self::VDouble(d_left * d_right)),
-                Self::VInteger(i_right) => Ok(Self::VDouble(d_left * i_right as f64)),
-                Self::VLong(l_right) => Ok(Self::VDouble(d_left * l_right as f64)),
+                Self::VDouble(d_right) => checked_double(d_left * d_right),
+                Self::VInteger(i_right) => checked_double(d_left * i_right as f64),
+                Self::VLong(l_right) => checked_double(d_left * l_right as f64),
                 _ => other.multiply(self),
             },
             Self::VInteger(i_left) => match other {
